@@ -416,6 +416,7 @@ def run(repo: Repo, ctx) -> None:
                                    sample='handler re-raises on every path')
 
     _r6(repo, ctx)
+    _r7(repo, ctx)
 
 
 def _r6(repo: Repo, ctx) -> None:
@@ -498,6 +499,122 @@ def _r6(repo: Repo, ctx) -> None:
     ctx.ob('C20.R6', '_register_item:deps-reach-node', len(merges) == 1,
            'the computed dependency set is not merged into the graph node',
            ri.loc, sample='node.deps |= deps')
+
+
+def _r7(repo: Repo, ctx) -> None:
+    """(a) OrderedSet keeps its own insertion order: a method that rebuilds
+           the backing map draws the keys from the set itself, the argument
+           only filters (the sorter's inputs are narrowed with `&=`);
+       (b) a self-reference seen for any element is reported: the flag is
+           only ever set inside the loop, never reset;
+       (c) in the delta linearizer the forward rename map (old -> new) is
+           only consulted with a command's own (old) class name; names read
+           from the new schema are translated back through the reverse
+           map."""
+    ctx.floor('C20.R7', 3)
+    # (a)
+    oc = repo.classes.get('edb.common.ordered.OrderedSet')
+    if oc is None:
+        raise AnalysisError('C20.R7: OrderedSet not found')
+    GROW = {'__init__', 'update', 'add', '__ior__', 'copy'}
+    n_m = 0
+    for st in oc.node.body:
+        if not isinstance(st, ast.FunctionDef):
+            continue
+        n_m += 1
+        if st.name in GROW:
+            continue
+        params = [a.arg for a in st.args.args[1:]]
+        for a in ast.walk(st):
+            if not (isinstance(a, ast.Assign) and norm(a.targets[0]) in (
+                    'self.map',)):
+                continue
+            comps = [c for c in ast.walk(a.value) if isinstance(
+                c, (ast.DictComp, ast.ListComp, ast.SetComp,
+                    ast.GeneratorExp))]
+            for c in comps:
+                it = norm(c.generators[0].iter)
+                ok = it.startswith('self') and not any(
+                    it == p_ or it.startswith(p_ + '.') for p_ in params)
+                ctx.ob('C20.R7', f'OrderedSet.{st.name}:keeps-own-order', ok,
+                       f'OrderedSet.{st.name} rebuilds the set by iterating '
+                       f'`{it}`: the result takes the (hash) order of the '
+                       f'other operand, so dependency sets narrowed with '
+                       f'`&= set(...)` reach the sorter in an order that '
+                       f'differs between processes', f'edb/common/ordered.py'
+                       f':{st.lineno}', sample=it)
+            if not comps and any(isinstance(x, ast.Name) and x.id in params
+                                 for x in ast.walk(a.value)) and not any(
+                    'self' in norm(x) for x in ast.walk(a.value)
+                    if isinstance(x, ast.Attribute)):
+                ctx.fail('C20.R7', f'OrderedSet.{st.name}:keeps-own-order',
+                         f'OrderedSet.{st.name} replaces the backing map by '
+                         f'`{norm(a.value)[:50]}`', f'edb/common/ordered.py'
+                         f':{st.lineno}')
+    inher = [norm(st) for st in oc.node.body if isinstance(st, ast.Assign)
+             and 'MutableSet.__i' in norm(st.value)]
+    ctx.ob('C20.R7', 'OrderedSet:in-place-operators', n_m >= 8, '',
+           'edb/common/ordered.py', nontrivial=False,
+           sample=f'{n_m} methods; inherited in-place operators (element-'
+                  f'wise discard/add on self): {len(inher)}')
+    # (b)
+    sk = repo.func('edb.schema.delta.sort_by_cross_refs_key')
+    ctx.saw(sk)
+    raises = [r for r in ast.walk(sk.node) if isinstance(r, ast.If)
+              and any(isinstance(x, ast.Raise) for x in r.body)
+              and isinstance(r.test, ast.Name)]
+    if len(raises) != 1:
+        raise AnalysisError('C20.R7: self-reference report of '
+                            'sort_by_cross_refs_key not found')
+    flag = raises[0].test.id
+    loops = [l for l in ast.walk(sk.node) if isinstance(l, ast.For)]
+    sets = [(l, a) for l in loops for a in ast.walk(l)
+            if isinstance(a, ast.Assign) and norm(a.targets[0]) == flag]
+    if not sets:
+        raise AnalysisError(f'C20.R7: `{flag}` is never set in the loop')
+    for l, a in sets:
+        cond = a not in l.body and not isinstance(a.value, ast.IfExp)
+        falsy = isinstance(a.value, ast.Constant) and not a.value.value
+        ctx.ob('C20.R7', f'sort_by_cross_refs_key:{flag}-sticky',
+               cond and not falsy,
+               f'`{norm(a)[:50]}` runs for every element: an element '
+               f'without self-reference clears `{flag}`, so a '
+               f'self-referencing object is reported only when it is the '
+               f'last one in the input', sk.loc,
+               sample=f'{flag} set under a condition, never cleared')
+    # (c)
+    to = repo.func('edb.schema.ordering._trace_op')
+    ctx.saw(to)
+    P = to.params()
+    if 'renames' not in P or 'renames_r' not in P:
+        raise AnalysisError('C20.R7: rename maps of _trace_op not found')
+    n_f = 0
+    for x in ast.walk(to.node):
+        key = None
+        if isinstance(x, ast.Subscript) and norm(x.value) == 'renames':
+            key = x.slice
+        elif isinstance(x, ast.Call) and norm(x.func) in (
+                'renames.get', 'renames.__getitem__') and x.args:
+            key = x.args[0]
+        elif isinstance(x, ast.Compare) and isinstance(
+                x.ops[0], (ast.In, ast.NotIn)) and norm(
+                x.comparators[0]) == 'renames':
+            key = x.left
+        if key is None:
+            continue
+        n_f += 1
+        ok = isinstance(key, ast.Attribute) and key.attr == 'classname'
+        ctx.ob('C20.R7', f'_trace_op:forward-rename-key@L'
+               f'{x.lineno - to.node.lineno}', ok,
+               f'_trace_op looks `{norm(key)}` up in the forward rename map '
+               f'(old -> new): a name read from the new schema is a new '
+               f'name and must go through renames_r, otherwise the '
+               f'dependency is filed under a key that is dropped before '
+               f'sorting and a renamed referrer is altered before the '
+               f'object it now refers to is created', to.loc,
+               sample=norm(x)[:60])
+    if n_f < 1:
+        raise AnalysisError('C20.R7: no forward rename lookup in _trace_op')
 
 
 class _Wrap:
